@@ -13,6 +13,8 @@
 #include "io_util.hpp"
 #include "../c02_enc_o5m.hpp"
 
+#include <atomic>
+#include <cerrno>
 #include <chrono>
 #include <csignal>
 #include <fcntl.h>
@@ -25,6 +27,17 @@ enum Fmt { F_PBF_DENSE, F_PBF_PLAIN, F_XML, F_OPL, F_O5M, F_NFMT };
 const char* FMT_NAME[] = {"pbf(dense)", "pbf(plain)", "xml", "opl", "o5m"};
 
 std::string g_dir;
+
+// close(2) on a descriptor that is not open = some descriptor was closed twice; with another
+// open() in between the second close hits a file that belongs to somebody else
+std::atomic<uint64_t> g_bad_closes{0};
+std::atomic<bool> g_watch_close{false};
+extern "C" int __real_close(int fd);
+extern "C" int __wrap_close(int fd) {
+    const int r = __real_close(fd);
+    if (r != 0 && errno == EBADF && fd >= 0 && g_watch_close.load(std::memory_order_relaxed)) g_bad_closes.fetch_add(1, std::memory_order_relaxed);
+    return r;
+}
 
 // runs of types with ascending unique ids per type; small objects with a few tags
 std::vector<mdl::Obj> make_dataset(vh::Rng& rng, int fmt, size_t nruns, size_t max_run) {
@@ -152,6 +165,8 @@ void case_read(uint64_t idx, vh::Rng& rng) {
     std::vector<mdl::Obj> got;
     size_t nbuffers = 0;
     bool mixed_buffer = false;
+    g_bad_closes = 0;
+    g_watch_close = !stall;   // (the FIFO feeder closes its own descriptor concurrently; it does so once)
     std::string err;
     bool read_after_eof_ok = false, eof_flag = false;
     {
@@ -207,6 +222,8 @@ void case_read(uint64_t idx, vh::Rng& rng) {
         if (feeder.joinable()) feeder.join();
         if (from_file) ::unlink(path.c_str());
     }
+    g_watch_close = false;
+    if (g_bad_closes.exchange(0) > 0) vh::violation(std::string("close(2) called on a descriptor that is not open (descriptor closed twice): ") + FMT_NAME[fmt], cfg);
     if (stall) vh::count("runs_with_stalling_input");
     if (!err.empty()) { vh::violation(std::string("Reader failed on a valid file: ") + FMT_NAME[fmt], cfg + " : " + err); return; }
     if (!eof_flag) vh::violation("eof() false after the end of data", cfg);
@@ -258,6 +275,94 @@ void case_read(uint64_t idx, vh::Rng& rng) {
     if (idx % 150 == 0) vh::sample_str(vh::fmt("%s: %zu objects in %zu buffers delivered in order, interleaving signature %016" PRIx64, cfg.c_str(), got.size(), nbuffers, vhk::signature()));
 }
 
+// ---- two Readers alive at the same time (merging or comparing two files): each must deliver
+// exactly its own file, whatever the other one and its threads are doing
+void case_pair(uint64_t idx, vh::Rng& rng) {
+    const int fmt[2] = {static_cast<int>(idx % F_NFMT), rng.coin() ? static_cast<int>(idx % F_NFMT) : static_cast<int>(rng.below(F_NFMT))};
+    std::vector<mdl::Obj> D[2];
+    std::string bytes[2];
+    for (int r = 0; r < 2; ++r) {
+        D[r] = make_dataset(rng, fmt[r], r == 0 ? 3 + rng.below(6) : 30 + rng.below(30), r == 0 ? 200 : 30);
+        bytes[r] = encode(rng, fmt[r], D[r]);
+    }
+    const int outq = static_cast<int>(rng.pick(std::vector<int>{2, 3, 20}));
+    const int first_reads = static_cast<int>(rng.below(3));     // buffers taken from A before B is opened
+    const bool threads = rng.coin();                                // drain the two Readers in two threads or one after the other
+    const bool shared_pool = rng.coin();
+    const bool mem_b = rng.chance(1, 4);
+    const uint32_t permille = rng.pick(std::vector<uint32_t>{0, 50, 300});
+    ::setenv("OSMIUM_MAX_INPUT_QUEUE_SIZE", "2", 1);
+    ::setenv("OSMIUM_MAX_OSMDATA_QUEUE_SIZE", std::to_string(outq).c_str(), 1);
+    ::setenv("OSMIUM_USE_POOL_THREADS_FOR_PBF_PARSING", rng.coin() ? "true" : "false", 1);
+    vhk::reset(rng.next() | 1, permille, 100);
+    const std::string cfg = vh::fmt("two readers: A=%s B=%s%s outq=%d reads-before-B=%d %s %s perturb=%u", FMT_NAME[fmt[0]], FMT_NAME[fmt[1]], mem_b ? "(memory)" : "",
+                                    outq, first_reads, threads ? "drained-in-two-threads" : "drained-A-then-B", shared_pool ? "shared-pool" : "own-pools", permille);
+    vh::set_case_desc("%s", cfg.c_str());
+    std::vector<mdl::Obj> got[2];
+    std::string err[2];
+    const std::string path[2] = {g_dir + "/a." + fmt_suffix(fmt[0]), g_dir + "/b." + fmt_suffix(fmt[1])};
+    iou::spit(path[0], bytes[0]);
+    if (!mem_b) iou::spit(path[1], bytes[1]);
+    g_bad_closes = 0;
+    g_watch_close = true;
+    {
+        osmium::thread::Pool pool_a{static_cast<int>(1 + rng.below(4)), 4};
+        osmium::thread::Pool pool_b{static_cast<int>(1 + rng.below(4)), 4};
+        std::unique_ptr<osmium::io::Reader> rd[2];
+        auto drain = [&](int r) {
+            try {
+                while (osmium::memory::Buffer buffer = rd[r]->read()) { mdl::from_buffer(buffer, got[r]); vh::heartbeat(); }
+                rd[r]->close();
+            } catch (const std::exception& e) { err[r] = e.what(); }
+            rd[r].reset();
+        };
+        try {
+            rd[0].reset(new osmium::io::Reader{osmium::io::File{path[0], fmt_suffix(fmt[0])}, pool_a});
+            for (int k = 0; k < first_reads; ++k) { osmium::memory::Buffer b = rd[0]->read(); if (!b) break; mdl::from_buffer(b, got[0]); }
+            // give A's threads the time to run into their full queues (or to the end of the file)
+            std::this_thread::sleep_for(std::chrono::milliseconds(rng.below(4)));
+        } catch (const std::exception& e) { err[0] = e.what(); }
+        try {
+            osmium::thread::Pool& pb = shared_pool ? pool_a : pool_b;
+            if (mem_b) rd[1].reset(new osmium::io::Reader{osmium::io::File{bytes[1].data(), bytes[1].size(), fmt_suffix(fmt[1])}, pb});
+            else rd[1].reset(new osmium::io::Reader{osmium::io::File{path[1], fmt_suffix(fmt[1])}, pb});
+            osmium::memory::Buffer b = rd[1]->read();
+            if (b) mdl::from_buffer(b, got[1]);
+        } catch (const std::exception& e) { err[1] = e.what(); }
+        if (err[0].empty() && err[1].empty()) {
+            if (threads) { std::thread ta{[&] { drain(0); }}; std::thread tb{[&] { drain(1); }}; ta.join(); tb.join(); }
+            else { drain(0); drain(1); }
+        }
+        rd[0].reset(); rd[1].reset();
+    }
+    g_watch_close = false;
+    ::unlink(path[0].c_str()); ::unlink(path[1].c_str());
+    if (g_bad_closes.exchange(0) > 0) vh::violation("close(2) called on a descriptor that is not open (descriptor closed twice)", cfg);
+    for (int r = 0; r < 2; ++r) {
+        const std::string who = std::string(r == 0 ? "first" : "second") + " of two concurrent Readers: " + FMT_NAME[fmt[r]];
+        if (!err[r].empty()) { vh::violation("Reader failed on a valid file: " + who, cfg + " : " + err[r]); return; }
+        const size_t n = std::min(got[r].size(), D[r].size());
+        for (size_t i = 0; i < n; ++i) {
+            std::string detail;
+            const std::string f = mdl::diff(D[r][i], got[r][i], &detail);
+            if (!f.empty()) { vh::violation("object differs from the file (" + f + "): " + who, cfg + vh::fmt(" | position %zu ", i) + detail); return; }
+        }
+        if (got[r].size() != D[r].size()) { vh::violation(std::string(got[r].size() < D[r].size() ? "objects lost at the end: " : "extra objects delivered: ") + who, cfg + vh::fmt(" | expected %zu got %zu", D[r].size(), got[r].size())); return; }
+    }
+    vh::count("reader_pairs_run");
+    vh::count("objects_in_order", got[0].size() + got[1].size());
+    vh::count("hook_events", vhk::hs().events.load());
+    vh::cover("pair", std::string(FMT_NAME[fmt[0]]) + "+" + FMT_NAME[fmt[1]]);
+    vh::evaluated();
+    vh::distinct(vh::hash_u64(vhk::signature(), vh::hash_str(cfg, vh::hash_u64(bytes[0].size() + bytes[1].size()))));
+    if (idx % 150 == 6) vh::sample_str(cfg + vh::fmt(": %zu + %zu objects delivered in order", got[0].size(), got[1].size()));
+}
+
+void case_any(uint64_t idx, vh::Rng& rng) {
+    if (idx % 6 == 5) case_pair(idx / 6, rng);
+    else case_read(idx, rng);
+}
+
 } // namespace
 
 int main(int argc, char** argv) {
@@ -276,7 +381,7 @@ int main(int argc, char** argv) {
                      "default"
 #endif
                      ));
-    const int rc = vh::run_cases(argc, argv, 600, case_read);
+    const int rc = vh::run_cases(argc, argv, 600, case_any);
     ::rmdir(g_dir.c_str());
     return rc;
 }
